@@ -320,7 +320,7 @@ def _language_guard(repo, L, r, f):
 
     for p in paths:
         t = p[-1]
-        if not cfg.returns_nonempty(t):
+        if not cfg.path_returns_nonempty(p):
             continue
         ok = False
         for ev in p[:-1]:
